@@ -15,7 +15,7 @@ R8  flaw_created posts {!sigma, !xi, sigma_xi}; propagate re-imposes every store
 from ..expr import LocalEnv, canon, show
 from ..facts import AnalysisBroken, short, src, walk, walk_nolambda
 from ..schema import posted, show_clause
-from ..tables import enum_paths
+from ..tables import enum_paths, region_of
 from .. import cfg
 
 EX = 'ratio::executor::'
@@ -200,27 +200,32 @@ def r5(ctx, fs):
         for n in f.nodes():
             if n.get('callee_name') not in ('smt::lra_theory::set', 'smt::lra_theory::set_lb', 'smt::lra_theory::set_ub'):
                 continue
-            iff = None
-            for a in f.ancestors(n):
-                if a.get('k') == 'IfStmt' and _within(a['slots']['cond'], n):
-                    iff = a
-                    break
-            okc = iff is not None and all(isinstance(x, tuple) and x[0] == '!' for x in _disj(canon(iff['slots']['cond'], env, subst=False)))
-            then = iff['slots']['then'] if iff is not None else None
-            calls = [m.get('callee_name') for m in walk(then) if m.get('callee_name')] if then else []
-            swap = 'smt::theory::swap_conflict' in calls
-            if f.name.endswith('propagate_bounds'):
-                rets = [canon(r['c'][0], env) for r in walk(then) if r.get('k') == 'ReturnStmt'] if then else []
-                handled = swap and rets == ['false']
-            else:
-                bj = [m for m in walk(then) if m.get('callee_name') == 'smt::theory::backtrack_analyze_and_backjump'] if then else []
-                thr = False
-                for b in bj:
-                    for a in f.ancestors(b):
-                        if a.get('k') == 'IfStmt' and _within(a['slots']['cond'], b):
-                            thr = canon(a['slots']['cond'], env, subst=False)[0] == '!' and any(m.get('k') == 'CXXThrowExpr' for m in walk(a['slots']['then']))
+            # decided on the paths of the enclosing region, on atomic decisions: the call is tested (it is a decision of the path), and every path on which it
+            # failed takes the conflict over (swap_conflict) and - propagate_bounds: answers false; elsewhere: analyses it, throwing when that fails
+            region = region_of(f, n)
+            try:
+                ps = enum_paths(region)
+            except AnalysisBroken:
+                ps = []
+            failing = [p for p in ps if any(c[0] == 'if' and c[1] is n and c[2] is False for c in p.conds)]
+            okc = bool(failing) and any(c[0] == 'if' and c[1] is n and c[2] is True for p in ps for c in p.conds)
+            handled = bool(failing)
+            for p in failing:
+                names = [m.get('callee_name') for st in p.stmts if not st.get('as') for m in walk(st) if m.get('callee_name')]
+                swap = 'smt::theory::swap_conflict' in names
+                if f.name.endswith('propagate_bounds'):
+                    ok1 = swap and p.end == 'return' and p.endnode.get('c') and canon(p.endnode['c'][0], env) == 'false'
+                else:
+                    after = False
+                    bj = None
+                    for c in p.conds:
+                        if c[0] == 'if' and c[1] is n:
+                            after = True
+                        elif after and c[0] == 'if' and c[1].get('callee_name') == 'smt::theory::backtrack_analyze_and_backjump':
+                            bj = c[2]
                             break
-                handled = swap and len(bj) == 1 and thr
+                    ok1 = swap and bj is not None and (bj is True or p.end == 'throw')
+                handled = handled and bool(ok1)
             ctx.instance(rid, [f.id, n.get('callee_name'), short(n.get('loc'))], {'function': f.id, 'call': src(n)[:120], 'failure_tested': okc, 'conflict_swapped_and_analysed': handled})
             if not okc or not handled:
                 ctx.finding(rid, f.id, 'bound:' + _ctx(f, n), '%s: a failed %s must be tested, the conflict taken over from the LRA theory (swap_conflict) and analysed (backtrack_analyze_and_backjump, failure -> execution_exception)' % (
@@ -427,6 +432,7 @@ def r9(ctx, fs, f):
                   '(lb = V and ub = V); next to every set_lb(x, L, sigma_xi) it stores lb = L in both cases - so that the bounds re-imposed after back-tracking keep a started / ended atom where it was', floor=5)
     env = LocalEnv(f)
     n_sites = 0
+    seen_locs = {}
     for n in f.nodes():
         cn = n.get('callee_name') or ''
         if cn not in ('smt::lra_theory::set', 'smt::lra_theory::set_lb', 'smt::lra_theory::set_ub'):
@@ -466,7 +472,8 @@ def r9(ctx, fs, f):
         else:
             ok_new = bool(news) and all(b == V for a, b in news)
             ok_upd = asg.get('ub') == [V] and 'lb' not in asg
-        ctx.instance(rid, [f.id, kind, short(n.get('loc'))], {'imposed': '%s(.., %s, sigma_xi)' % (kind, show(V)), 'stored_when_new': [[show(a), show(b)] for a, b in news],
+        seen_locs[n.get('loc')] = seen_locs.get(n.get('loc'), 0) + 1        # two inlined copies of one new helper share their source location
+        ctx.instance(rid, [f.id, kind, short(n.get('loc')) + ('' if seen_locs[n.get('loc')] == 1 else '#%d' % seen_locs[n.get('loc')])], {'imposed': '%s(.., %s, sigma_xi)' % (kind, show(V)), 'stored_when_new': [[show(a), show(b)] for a, b in news],
                                                              'stored_when_present': {k: [show(x) for x in v] for k, v in asg.items()}, 'ok': ok_new and ok_upd})
         if not (ok_new and ok_upd):
             ctx.finding(rid, f.id, '%s:%s' % (kind, show(V)), 'executor::tick imposes %s(.., %s, ..) but the adaptation kept for re-imposing it after a back-jump stores %s when the entry is new and %s when it '
